@@ -19,6 +19,29 @@ def _c04_task(name):
         return [('C04/%s/execution' % name, 'error', 0.0, '%s\n%s' % (e, traceback.format_exc()[-800:]), None, {})]
 
 
+def functions_of_classes():
+    """extraction reports of the real methods executed at contract level (add_class_constraints and every closure of the 24 classes)"""
+    import ast
+    from pyvc import front
+    from .classes import SPECS
+    out = []
+    for rp in front.all_repo_py():
+        src, tree = front.parse_file(rp)
+        for n in tree.body:
+            if isinstance(n, ast.ClassDef) and n.name in SPECS:
+                for m in n.body:
+                    if isinstance(m, ast.FunctionDef) and (m.name == 'add_class_constraints' or m.name.startswith('set_')) and m.name not in ('set_name',):
+                        out.append(front.extraction_report(rp, '%s.%s' % (n.name, m.name)))
+    return out
+
+
+def functions_of_steps():
+    from pyvc import front
+    names = ['proximal_step', 'inexact_gradient_step', 'exact_linesearch_step', 'inexact_proximal_step', 'epsilon_subgradient_step',
+             'bregman_gradient_step', 'bregman_proximal_step', 'linear_optimization_step']
+    return [front.extraction_report('PEPit/primitive_steps/%s.py' % n, n) for n in names]
+
+
 def class_formulas(run, soundness_only=False):
     """soundness_only (C03): keep 'generated formula == documented formula', drop the completeness obligations (C04)"""
     from .classes import SPECS
@@ -49,6 +72,8 @@ def class_formulas(run, soundness_only=False):
             run.violation(oid, detail, replay=dict(kind='class-formula', model=model, detail=detail, **rep), signature=sig,
                           reproduced=rep.get('reproduced', False))
     run.components.append({'component': 'contract-level execution of add_class_constraints / closures', 'classes': n_cls})
+    have = {(f['file'], f['function']) for f in run.functions}
+    run.functions += [f for f in functions_of_classes() if (f['file'], f['function']) not in have]
     run.trust('contract stand-ins (sym/standins.py) transcribe the operator contracts proved under C06; cross-checked numerically against the real operators',
               'documented conditions transcribed by hand in sym/classes.py from the class doc-strings and cited theorems')
 
@@ -223,6 +248,7 @@ def primitive_steps(run):
         run.violation(o.oid, o.detail, replay=dict(kind='step', model=o.model, detail=o.detail, **rep), signature=o.signature,
                       reproduced=rep.get('reproduced', False))
     run.components.append({'component': 'contract-level execution of the 8 primitive steps', 'obligations': len(obs)})
+    run.functions += functions_of_steps()
     run.trust('contract stand-ins (sym/standins.py) transcribe the operator contracts proved under C06',
               'documented step relations transcribed by hand in sym/steps.py from the step doc-strings (primal-dual gap, epsilon-subdifferential)')
     run.assume('"running the real operation satisfies what the step recorded": the recorded relation IS the optimality condition defining the step '
